@@ -886,6 +886,22 @@ func (env *SpecEnv) call(e *Expr) (SpecVal, error) {
 	vc := env.vc
 	fnE := e.Args[0]
 	args := e.Args[1:]
+	if fnE.Kind == EField && fnE.Args[0].Kind == EIdent {
+		// pkg.ghostFunc(...) / pkg.pureFunc(...): a spec function declared in another package's contract file
+		if _, isVar := env.vars[fnE.Args[0].Name]; !isVar {
+			for _, p := range vc.ctx.typePkgs {
+				if p.Name() != fnE.Args[0].Name {
+					continue
+				}
+				if gf, ok := vc.ctx.ghosts[p.Path()+"."+fnE.Op]; ok {
+					return env.callGhost(gf, args)
+				}
+				if pf, ok := vc.ctx.pures[p.Path()+"."+fnE.Op]; ok {
+					return env.callPure(pf, args)
+				}
+			}
+		}
+	}
 	if fnE.Kind == EField {
 		// method call on a value of type-parameter type: the same pure function the code uses
 		recv, err := env.Eval(fnE.Args[0])
@@ -1059,6 +1075,17 @@ func (env *SpecEnv) call(e *Expr) (SpecVal, error) {
 				}
 			}
 			return SpecVal{T: t, Ty: rty}, nil
+		}
+		// not called on this path: an arbitrary (but fixed) value of the result type
+		if pv, err := env.ident(pn); err == nil && pv.Ty != nil {
+			if sig, ok := U(pv.Ty).(*types.Signature); ok && sig.Results().Len() == 1 {
+				rty := sig.Results().At(0).Type()
+				if srt, err := vc.tt.SortOf(rty); err == nil {
+					n := "fnret0!" + sanitize(pn)
+					vc.DeclareFun(n, nil, srt)
+					return SpecVal{T: Term{n, srt}, Ty: rty}, nil
+				}
+			}
 		}
 		return SpecVal{}, fmt.Errorf("ret(%s): the callback has not been called on this path", pn)
 	case "string":
@@ -1404,8 +1431,11 @@ func (env *SpecEnv) callGhost(gf *GhostFunc, args []*Expr) (SpecVal, error) {
 	}
 	var rty types.Type
 	var rs Sort = SInt
+	var bvw int
 	if gf.Result == "bool" {
 		rs = SBool
+	} else if n, _ := fmt.Sscanf(gf.Result, "bv%d", &bvw); n == 1 && bvw > 0 {
+		rs = SBV(bvw)
 	} else if gf.Result != "" && gf.Result != "mathint" {
 		var err error
 		rty, err = genv.resolveTypeName(gf.Result)
